@@ -27,17 +27,21 @@ EXTENDS Naturals, Sequences, FiniteSets, TLC
 
 CONSTANTS N,          \* payload = <<1, ..., N>>
           PipeCap, ReadMax, Hint,   \* pipe capacity; units per os.read; units per readlines(hint)
+          FROrder,    \* the order in which "fully read?" reads its three flags: the code's is <<"closed", "thread", "empty">>
           Deviations
 
 Payload == [i \in 1..N |-> i]
+\* orders for the constant FROrder (cfg files cannot hold tuples)
+CodeOrder == <<"closed", "thread", "empty">>
+EmptyFirst == <<"empty", "closed", "thread">>
 
 VARIABLES toWrite, pipe, childOpen, shellOpen, exited,      \* writer / pipe
           pumpPc, chunk, queue, closed,                     \* pump
-          copPc, cur, saved, membuf, fpos, lockHeld, closedWriter, copDone,   \* copier + buffer
+          copPc, cur, saved, membuf, fpos, lockHeld, closedWriter, copDone, frk,   \* copier + buffer; frk: flags of "fully read?" read so far
           mainPc, got, finalReads                           \* main
 
 vars == <<toWrite, pipe, childOpen, shellOpen, exited, pumpPc, chunk, queue, closed,
-          copPc, cur, saved, membuf, fpos, lockHeld, closedWriter, copDone, mainPc, got, finalReads>>
+          copPc, cur, saved, membuf, fpos, lockHeld, closedWriter, copDone, frk, mainPc, got, finalReads>>
 
 Min(a, b) == IF a < b THEN a ELSE b
 Take(s, n) == SubSeq(s, 1, Min(n, Len(s)))
@@ -46,57 +50,66 @@ Drop(s, n) == SubSeq(s, Min(n, Len(s)) + 1, Len(s))
 Init == /\ toWrite = Payload /\ pipe = <<>> /\ childOpen = TRUE /\ shellOpen = TRUE /\ exited = FALSE
         /\ pumpPc = "read" /\ chunk = <<>> /\ queue = <<>> /\ closed = FALSE
         /\ copPc = "loop" /\ cur = <<>> /\ saved = 0 /\ membuf = <<>> /\ fpos = 0 /\ lockHeld = FALSE
-        /\ closedWriter = FALSE /\ copDone = FALSE
+        /\ closedWriter = FALSE /\ copDone = FALSE /\ frk = 0
         /\ mainPc = "poll" /\ got = <<>> /\ finalReads = 0
 
 (* ---- Writer -------------------------------------------------------------------------------- *)
 Write == /\ toWrite # <<>> /\ Len(pipe) < PipeCap
          /\ pipe' = Append(pipe, Head(toWrite)) /\ toWrite' = Tail(toWrite)
-         /\ UNCHANGED <<childOpen, shellOpen, exited, pumpPc, chunk, queue, closed, copPc, cur, saved, membuf, fpos, lockHeld, closedWriter, copDone, mainPc, got, finalReads>>
+         /\ UNCHANGED <<childOpen, shellOpen, exited, pumpPc, chunk, queue, closed, copPc, cur, saved, membuf, fpos, lockHeld, closedWriter, copDone, frk, mainPc, got, finalReads>>
 WriterExit == /\ toWrite = <<>> /\ ~exited
               /\ childOpen' = FALSE /\ exited' = TRUE
-              /\ UNCHANGED <<toWrite, pipe, shellOpen, pumpPc, chunk, queue, closed, copPc, cur, saved, membuf, fpos, lockHeld, closedWriter, copDone, mainPc, got, finalReads>>
+              /\ UNCHANGED <<toWrite, pipe, shellOpen, pumpPc, chunk, queue, closed, copPc, cur, saved, membuf, fpos, lockHeld, closedWriter, copDone, frk, mainPc, got, finalReads>>
 
 (* ---- Pump ---------------------------------------------------------------------------------- *)
 PumpRead == /\ pumpPc = "read" /\ pipe # <<>>
             /\ chunk' = Take(pipe, ReadMax) /\ pipe' = Drop(pipe, ReadMax) /\ pumpPc' = "put"
-            /\ UNCHANGED <<toWrite, childOpen, shellOpen, exited, queue, closed, copPc, cur, saved, membuf, fpos, lockHeld, closedWriter, copDone, mainPc, got, finalReads>>
+            /\ UNCHANGED <<toWrite, childOpen, shellOpen, exited, queue, closed, copPc, cur, saved, membuf, fpos, lockHeld, closedWriter, copDone, frk, mainPc, got, finalReads>>
 PumpPut == /\ pumpPc = "put"
            /\ queue' = Append(queue, chunk) /\ chunk' = <<>> /\ pumpPc' = "read"
-           /\ UNCHANGED <<toWrite, pipe, childOpen, shellOpen, exited, closed, copPc, cur, saved, membuf, fpos, lockHeld, closedWriter, copDone, mainPc, got, finalReads>>
+           /\ UNCHANGED <<toWrite, pipe, childOpen, shellOpen, exited, closed, copPc, cur, saved, membuf, fpos, lockHeld, closedWriter, copDone, frk, mainPc, got, finalReads>>
 \* end of file only when every write end is closed
 PumpEOF == /\ pumpPc = "read" /\ pipe = <<>> /\ ~childOpen /\ ~shellOpen
            /\ closed' = TRUE /\ pumpPc' = "stopped"
-           /\ UNCHANGED <<toWrite, pipe, childOpen, shellOpen, exited, chunk, queue, copPc, cur, saved, membuf, fpos, lockHeld, closedWriter, copDone, mainPc, got, finalReads>>
+           /\ UNCHANGED <<toWrite, pipe, childOpen, shellOpen, exited, chunk, queue, copPc, cur, saved, membuf, fpos, lockHeld, closedWriter, copDone, frk, mainPc, got, finalReads>>
 
 (* ---- Copier -------------------------------------------------------------------------------- *)
 FullyRead == closed /\ pumpPc = "stopped" /\ queue = <<>>
 
 \* one non-blocking get from the queue starts the four-step append
-CopGet == /\ copPc \in {"loop", "drain"} /\ queue # <<>> /\ ~lockHeld
+CopGet == /\ copPc \in {"loop", "drain"} /\ queue # <<>> /\ ~lockHeld /\ frk = 0
           /\ cur' = Head(queue) /\ queue' = Tail(queue) /\ lockHeld' = TRUE
           /\ copPc' = IF copPc = "loop" THEN "tell" ELSE "dtell"
-          /\ UNCHANGED <<toWrite, pipe, childOpen, shellOpen, exited, pumpPc, chunk, closed, saved, membuf, fpos, closedWriter, copDone, mainPc, got, finalReads>>
+          /\ UNCHANGED <<toWrite, pipe, childOpen, shellOpen, exited, pumpPc, chunk, closed, saved, membuf, fpos, closedWriter, copDone, frk, mainPc, got, finalReads>>
 CopTell == /\ copPc \in {"tell", "dtell"}
            /\ saved' = fpos /\ copPc' = IF copPc = "tell" THEN "seekend" ELSE "dseekend"
-           /\ UNCHANGED <<toWrite, pipe, childOpen, shellOpen, exited, pumpPc, chunk, queue, closed, cur, membuf, fpos, lockHeld, closedWriter, copDone, mainPc, got, finalReads>>
+           /\ UNCHANGED <<toWrite, pipe, childOpen, shellOpen, exited, pumpPc, chunk, queue, closed, cur, membuf, fpos, lockHeld, closedWriter, copDone, frk, mainPc, got, finalReads>>
 CopSeekEnd == /\ copPc \in {"seekend", "dseekend"}
               /\ fpos' = Len(membuf) /\ copPc' = IF copPc = "seekend" THEN "write" ELSE "dwrite"
-              /\ UNCHANGED <<toWrite, pipe, childOpen, shellOpen, exited, pumpPc, chunk, queue, closed, cur, saved, membuf, lockHeld, closedWriter, copDone, mainPc, got, finalReads>>
+              /\ UNCHANGED <<toWrite, pipe, childOpen, shellOpen, exited, pumpPc, chunk, queue, closed, cur, saved, membuf, lockHeld, closedWriter, copDone, frk, mainPc, got, finalReads>>
 CopWrite == /\ copPc \in {"write", "dwrite"}
             /\ membuf' = membuf \o cur /\ fpos' = Len(membuf) + Len(cur) /\ copPc' = IF copPc = "write" THEN "seekback" ELSE "dseekback"
-            /\ UNCHANGED <<toWrite, pipe, childOpen, shellOpen, exited, pumpPc, chunk, queue, closed, cur, saved, lockHeld, closedWriter, copDone, mainPc, got, finalReads>>
+            /\ UNCHANGED <<toWrite, pipe, childOpen, shellOpen, exited, pumpPc, chunk, queue, closed, cur, saved, lockHeld, closedWriter, copDone, frk, mainPc, got, finalReads>>
 CopSeekBack == /\ copPc \in {"seekback", "dseekback"}
                /\ fpos' = saved /\ cur' = <<>> /\ lockHeld' = FALSE
                /\ copPc' = IF copPc = "seekback" THEN "loop" ELSE "drain"
-               /\ UNCHANGED <<toWrite, pipe, childOpen, shellOpen, exited, pumpPc, chunk, queue, closed, saved, membuf, closedWriter, copDone, mainPc, got, finalReads>>
+               /\ UNCHANGED <<toWrite, pipe, childOpen, shellOpen, exited, pumpPc, chunk, queue, closed, saved, membuf, closedWriter, copDone, frk, mainPc, got, finalReads>>
 \* the polling loop ends when the child has exited; the shell's copy of the write end is closed then
 CopProcExit == /\ copPc = "loop" /\ exited
                /\ shellOpen' = FALSE /\ closedWriter' = TRUE /\ copPc' = "drain"
-               /\ UNCHANGED <<toWrite, pipe, childOpen, exited, pumpPc, chunk, queue, closed, cur, saved, membuf, fpos, lockHeld, copDone, mainPc, got, finalReads>>
-CopDone == /\ copPc = "drain" /\ FullyRead
-           /\ copDone' = TRUE /\ copPc' = "done"
-           /\ UNCHANGED <<toWrite, pipe, childOpen, shellOpen, exited, pumpPc, chunk, queue, closed, cur, saved, membuf, fpos, lockHeld, closedWriter, mainPc, got, finalReads>>
+               /\ UNCHANGED <<toWrite, pipe, childOpen, exited, pumpPc, chunk, queue, closed, cur, saved, membuf, fpos, lockHeld, copDone, frk, mainPc, got, finalReads>>
+\* "fully read?" is not atomic in the code: QueueReader.is_fully_read reads `closed`, the pump thread's
+\* liveness and the queue's emptiness one after the other (short-circuit `and`).  One step per read; a
+\* false flag sends the copier back to draining.  The order matters: a chunk put after `empty` was read
+\* but before `closed` was read would be left behind.
+Flag(f) == CASE f = "closed" -> closed [] f = "thread" -> pumpPc = "stopped" [] f = "empty" -> queue = <<>>
+CopCheck == /\ copPc = "drain" /\ ~lockHeld
+            /\ IF Flag(FROrder[frk + 1])
+                 THEN IF frk + 1 = 3 THEN copDone' = TRUE /\ copPc' = "done" /\ frk' = 0
+                                     ELSE frk' = frk + 1 /\ UNCHANGED <<copDone, copPc>>
+                 ELSE frk' = 0 /\ UNCHANGED <<copDone, copPc>>
+            /\ UNCHANGED <<toWrite, pipe, childOpen, shellOpen, exited, pumpPc, chunk, queue, closed, cur, saved, membuf, fpos, lockHeld, closedWriter, mainPc, got, finalReads>>
+CopDone == CopCheck
 
 (* ---- Main ---------------------------------------------------------------------------------- *)
 \* readlines(hint) from the shared file position; conformant: excluded while the copier holds its lock
@@ -107,16 +120,16 @@ ReadLines(unlocked) ==
          take == IF mainPc = "poll" THEN Take(avail, Hint) ELSE avail IN
        /\ got' = got \o take /\ fpos' = fpos + Len(take)
   /\ finalReads' = IF mainPc = "final" THEN finalReads + 1 ELSE finalReads
-  /\ UNCHANGED <<toWrite, pipe, childOpen, shellOpen, exited, pumpPc, chunk, queue, closed, copPc, cur, saved, membuf, lockHeld, closedWriter, copDone, mainPc>>
+  /\ UNCHANGED <<toWrite, pipe, childOpen, shellOpen, exited, pumpPc, chunk, queue, closed, copPc, cur, saved, membuf, lockHeld, closedWriter, copDone, frk, mainPc>>
 MainRead == ReadLines(FALSE)
 Dev_UnlockedRead == "Dev_UnlockedRead" \in Deviations /\ ReadLines(TRUE)
 \* the polling loop ends when the process object reports the end (child exited and copier finished)
 MainProcEnd == /\ mainPc = "poll" /\ exited /\ copDone
                /\ mainPc' = "final"
-               /\ UNCHANGED <<toWrite, pipe, childOpen, shellOpen, exited, pumpPc, chunk, queue, closed, copPc, cur, saved, membuf, fpos, lockHeld, closedWriter, copDone, got, finalReads>>
+               /\ UNCHANGED <<toWrite, pipe, childOpen, shellOpen, exited, pumpPc, chunk, queue, closed, copPc, cur, saved, membuf, fpos, lockHeld, closedWriter, copDone, frk, got, finalReads>>
 MainDone == /\ mainPc = "final" /\ finalReads >= 1 /\ ~lockHeld
             /\ mainPc' = "done"
-            /\ UNCHANGED <<toWrite, pipe, childOpen, shellOpen, exited, pumpPc, chunk, queue, closed, copPc, cur, saved, membuf, fpos, lockHeld, closedWriter, copDone, got, finalReads>>
+            /\ UNCHANGED <<toWrite, pipe, childOpen, shellOpen, exited, pumpPc, chunk, queue, closed, copPc, cur, saved, membuf, fpos, lockHeld, closedWriter, copDone, frk, got, finalReads>>
 
 Next == Write \/ WriterExit \/ PumpRead \/ PumpPut \/ PumpEOF
         \/ CopGet \/ CopTell \/ CopSeekEnd \/ CopWrite \/ CopSeekBack \/ CopProcExit \/ CopDone
@@ -127,6 +140,7 @@ Spec == Init /\ [][Next]_vars /\ WF_vars(Next)
 FairSpec == Init /\ [][Next]_vars
             /\ WF_vars(Write \/ WriterExit) /\ WF_vars(PumpRead \/ PumpPut \/ PumpEOF)
             /\ WF_vars(CopGet \/ CopTell \/ CopSeekEnd \/ CopWrite \/ CopSeekBack \/ CopProcExit \/ CopDone)
+            /\ SF_vars(CopGet)      \* every pass of the drain loop reads the queue before it asks "fully read?" again
             /\ WF_vars(MainProcEnd \/ MainDone) /\ WF_vars(ReadLines(FALSE) /\ mainPc = "final")
 
 (* ---- the judgement on what the caller received (used by CaptureObsTrace) ------------------- *)
